@@ -328,6 +328,50 @@ def reference():
     return _REF
 
 
+def local_fingerprints(func):
+    """name -> digest of how the local is first bound (the binding
+    statement with every local name blanked out and the position of the
+    name among the targets): a renamed variable keeps it"""
+    import hashlib
+    locs = set(local_order(func)) | set(_params(func))
+    out = {}
+
+    def blank(node):
+        node = __import__("copy").deepcopy(node)
+        for x in ast.walk(node):
+            if isinstance(x, ast.Name) and x.id in locs:
+                x.id = "_"
+            elif isinstance(x, ast.arg) and x.arg in locs:
+                x.arg = "_"
+        return ast.unparse(node)
+
+    def note(target, ctxtext):
+        names = [x for x in ast.walk(target) if isinstance(x, ast.Name)
+                 and isinstance(x.ctx, ast.Store)]
+        for i, x in enumerate(names):
+            if x.id not in out and x.id in locs:
+                out[x.id] = hashlib.sha1(
+                    f"{i}/{len(names)}|{ctxtext}".encode()).hexdigest()[:12]
+    for st in ast.walk(func):
+        if isinstance(st, FUNC) and st is not func:
+            continue
+        if isinstance(st, ast.Assign):
+            for t in st.targets:
+                note(t, "assign " + blank(st.value))
+        elif isinstance(st, (ast.For, ast.AsyncFor)):
+            note(st.target, "for " + blank(st.iter))
+        elif isinstance(st, (ast.With, ast.AsyncWith)):
+            for it in st.items:
+                if it.optional_vars is not None:
+                    note(it.optional_vars, "with " + blank(it.context_expr))
+        elif isinstance(st, ast.ExceptHandler) and st.name:
+            if st.name not in out:
+                out[st.name] = hashlib.sha1(
+                    ("except " + (ast.unparse(st.type) if st.type else "")
+                     ).encode()).hexdigest()[:12]
+    return out
+
+
 def _temp_candidates(func, names):
     """names assigned exactly once and read exactly once: a refactoring's
     named temporaries rather than renamed variables"""
@@ -363,6 +407,28 @@ def recover_names(tree, modname, ref=None):
             continue
         func = table[q]
         cur = local_order(func)
+        # first by how the variable is bound (a rename keeps that) ...
+        fps = reference().get("fingerprints", {}).get(q, {})
+        pre = {}
+        if fps and set(cur) - set(want) and set(want) - set(cur):
+            mine = local_fingerprints(func)
+            extra = [n for n in cur if n not in want]
+            for m in [n for n in want if n not in cur]:
+                fp = fps.get(m)
+                hits = [e for e in extra if mine.get(e) == fp
+                        and e not in pre]
+                same_ref = [n for n in want if fps.get(n) == fp]
+                if fp and len(hits) == 1 and len(same_ref) == 1:
+                    pre[hits[0]] = m
+        if pre:
+            taken0 = set(cur) | set(_params(func))
+            pre = {a: b for a, b in pre.items() if b not in taken0}
+            if pre:
+                r0 = _Rename(pre)
+                func.body = [r0.visit(s) for s in func.body]
+                done.setdefault(q, {}).update(pre)
+                cur = local_order(func)
+        # ... then by order of first binding
         mapping = _align(cur, want)
         if not mapping and set(cur) - set(want) and set(want) - set(cur):
             # the refactoring may have added temporaries of its own: leave
@@ -374,11 +440,18 @@ def recover_names(tree, modname, ref=None):
             continue
         taken = set(cur) | set(_params(func))
         mapping = {a: b for a, b in mapping.items() if b not in taken}
+        if fps and mapping:
+            # a variable that is bound in a different way is another
+            # variable, not a renamed one
+            mine = local_fingerprints(func)
+            mapping = {a: b for a, b in mapping.items()
+                       if fps.get(b) is None or mine.get(a) is None
+                       or fps.get(b) == mine.get(a)}
         if not mapping:
             continue
         r = _Rename(mapping)
         func.body = [r.visit(s) for s in func.body]
-        done[q] = mapping
+        done.setdefault(q, {}).update(mapping)
     return done
 
 
@@ -689,6 +762,8 @@ def normalize(tree, modname):
             if not k:
                 break
         info["helpers_inlined"] = inline.inline_helpers(tree, modname, ref)
+        info["helpers_inlined"] += inline.inline_namedtuples(tree, modname,
+                                                             ref)
         # inlining may have produced `if not c: ... else: ...` again
         canon_shapes(tree)
         strip_noise(tree)
